@@ -87,6 +87,8 @@ def property_verdict(case, line):
     f = fields(line)
     if "keys" not in f or "ord" not in f:
         return "no result line (%s)" % line[:80]
+    if "moved-from-element" in line:
+        return "the sort looked at the key of a moved-from element (comparator called on it, or a sample / result copied from it)"
     keys = c["keys"]; n = len(keys)
     try:
         rk = ints(f["keys"])
@@ -109,6 +111,8 @@ def property_verdict(case, line):
         return "the sort wrote outside the range it was given (%s)" % line[line.find("GUARD-OVERWRITTEN"):][:40]
     if f.get("leak", "0") != "0":
         return "temporary copies still alive after the sort returned (live-instance counter +%s)" % f.get("leak")
+    if "moved-from-element" in line:
+        return "the sort looked at the key of a moved-from element (comparator called on it, or a sample / result copied from it)"
     if f.get("err", "0") != "0":
         return "element lifetime error during the sort: %s" % line[line.find("first_error"):][:80]
     return None
@@ -147,6 +151,7 @@ API_SURFACE = [
     {"entry": "iterator kinds not addressing contiguous ascending memory: std::vector<T>::reverse_iterator (v.rbegin()), std::reverse_iterator<T*>, std::deque across block boundaries (n up to 300)", "called": True, "by": "variants ark5 / aqk5 / adk5 of harness set 3, with guard cells around the range, element types pod (trivially copyable (key,index)), int, (key,index)+tag, ledger type; both splittings, stable and unstable, 1..16 threads"},
     {"entry": "element type: trivially copyable aggregate (key, index)", "called": True, "by": "element kind pod (harness set 3), through vector, reverse and deque iterators"},
     {"entry": "element types: int (trivial), (key,index)+writer tag, heap-owning ledger type", "called": True, "by": "default cases; ledger type also through deque / pointer variants"},
+    {"entry": "element type with real move operations that poison the moved-from source (ledger type: moved-from key = MOVED sentinel; any later comparator call / sample / result that sees it is an error token)", "called": True, "by": "every trk case: both splittings, stable and unstable, all thread counts and iterator kinds of the trk variants"},
     {"entry": "element type: move-only", "called": False, "by": "does not compile: the sort copies its input with std::uninitialized_copy and merges with copy assignment (CopyConstructible + CopyAssignable required)"},
     {"entry": "comparators: less / greater by key (aggregate functor with state)", "called": True, "by": "default cases (L / G)"},
     {"entry": "comparator: stateful, not default-constructible", "called": True, "by": "variants avn5, adn5, bpn3"},
